@@ -27,8 +27,20 @@ def run(ctx):
         refine.refine_batch(ctx, ctx.size(40, 400), salt=37, force=_deep_chains, pid=PID, name="trace-refinement(3-level trees, best-per-deme / NBC generators, SkipSameSprout + LevelLimit chains)"),
         # the local-method generator's extra rule: a deme that has just finished offers its best individual
         refine.refine_batch(ctx, ctx.size(40, 400), salt=41, force=_just_finished, pid=PID, name="trace-refinement(NBCGeneratorWithLocalMethod, demes above the leaves finish by their LSC, non-elitist engines)"),
+        refine.refine_batch(ctx, ctx.size(30, 300), salt=45, force=_mahalanobis, pid=PID, name="trace-refinement(MahalanobisFarEnough over CMA-ES children)"),
         runs.monitor_batch(ctx, PID, ctx.size(40, 400), salt=43, name="traced-runs-monitor-C10(local-method generator, demes above the leaves finish)", force=_just_finished),
     ]
+
+
+def _mahalanobis(rng):
+    """MahalanobisFarEnough in the chain (CMA-ES demes on the target level): which candidates lie inside a
+    strategy's extension is environment, that the filter only drops those — and what the filters after it
+    make of the rest — is the model's"""
+    from . import c02
+
+    f = c02._mahalanobis(rng)
+    f["sprout"]["tree_filters"] = [["levellimit"], ["skipsame", "levellimit"]][int(rng.integers(0, 2))]
+    return f
 
 
 def _just_finished(rng):
